@@ -26,9 +26,17 @@ def _apply_edit(d, ek, ke, te, w):
     raise ValueError(ek)
 
 
-def _body(V, P1, P2, T, z, g, q1, t1, ke, te, ek, w, recalc, second):
-    d = Dag(N)
+ZSEL = [("every cells reads Sub.z", None, None), ("c0 reads Sub.z, c2 reads Sub.zz", [True, False, False], [False, False, True]),
+        ("c1 reads Sub.z, c2 reads Sub.zz", [False, True, False], [False, False, True])]
+
+
+def _body(V, P1, P2, T, z, g, q1, t1, ke, te, ek, w, recalc, second, zsel=0, pre_ref=False, zz=0):
+    d = Dag(N, zreaders=ZSEL[zsel][1], zzreaders=ZSEL[zsel][2])
     d.bind(V, P1, P2, T, z, g)
+    if zsel:
+        label(ZSEL[zsel][0])
+        d.Sub.zz = zz
+        d.zz = zz
     label("eval c%d(%d)" % (q1, t1))
     r = call(d.cells[q1], t1)
     if r[0] != "ok":
@@ -41,6 +49,22 @@ def _body(V, P1, P2, T, z, g, q1, t1, ke, te, ek, w, recalc, second):
         ok0 = before == set(universe)
     if not check(ok0, "held == closure before edit", lambda: (before, universe)):
         return False
+    if pre_ref:
+        # a reference change BEFORE the value edit: everything computed from Sub.z is discarded, the rest stays
+        label("Sub.z re-assigned first")
+        d.Sub.z = z + 1
+        d.z = z + 1
+        with notrace():
+            universe0 = list(universe)
+        gone0 = set()
+        for x in universe0:
+            if any(d.zreaders[c[0]] for c in d.closure(*x)):
+                gone0.add(x)
+        with notrace():
+            before = d.held()
+            okpre = before == set(universe0) - gone0
+        if not check(okpre, "reference change discards exactly the values computed from it", lambda: (sorted(before), sorted(set(universe0) - gone0))):
+            return False
     if recalc:
         mx.set_recalc(True)
         label("recalc on")
@@ -105,8 +129,11 @@ def _body(V, P1, P2, T, z, g, q1, t1, ke, te, ek, w, recalc, second):
             d.m.g = g + 1
             d.g = g + 1
         elif second == 3:
-            d.Sub.z = z + 1
-            d.z = z + 1
+            d.Sub.z = d.z + 1
+            d.z = d.z + 1
+        elif second == 4:
+            d.Sub.zz = zz + 1
+            d.zz = zz + 1
         with notrace():
             isin = d.cells[ke].is_input(te) if (ke, te) in d.held() else False
         if not check(isin, "input lost by later operation"):
@@ -122,9 +149,13 @@ def _body(V, P1, P2, T, z, g, q1, t1, ke, te, ek, w, recalc, second):
 
 @harness
 def edit(v0: int, v1: int, v2: int, z: int, g: int, p1_1: int, p2_1: int, p1_2: int, p2_2: int,
-         T0: bool, T1: bool, T2: bool, q1: int, t1: int, ke: int, te: int, ek: int, w: int, recalc: bool, second: int) -> bool:
-    q1, t1, ke, te, ek, recalc, second = pick(q1, 0, 2), pick(t1, 0, TMAX), pick(ke, 0, 2), pick(te, 0, TMAX), pick(ek, 0, 4), pickb(recalc), pick(second, -1, 3)
-    return _body([v0, v1, v2], [-1, p1_1, p1_2], [-1, p2_1, p2_2], [T0, T1, T2], z, g, q1, t1, ke, te, ek, w, recalc, second)
+         T0: bool, T1: bool, T2: bool, q1: int, t1: int, ke: int, te: int, ek: int, w: int, recalc: bool, second: int,
+         zsel: int, pre_ref: bool, zz: int) -> bool:
+    q1, t1, ke, te, ek, recalc, second = pick(q1, 0, 2), pick(t1, 0, TMAX), pick(ke, 0, 2), pick(te, 0, TMAX), pick(ek, 0, 4), pickb(recalc), pick(second, -1, 4)
+    zsel, pre_ref = pick(zsel, 0, 2), pickb(pre_ref)
+    if (pre_ref and recalc) or (second == 4 and zsel == 0):
+        return True
+    return _body([v0, v1, v2], [-1, p1_1, p1_2], [-1, p2_1, p2_2], [T0, T1, T2], z, g, q1, t1, ke, te, ek, w, recalc, second, zsel, pre_ref, zz)
 
 
 @harness
@@ -207,29 +238,35 @@ def nonevalue(v: int, w: int, nt: int, t: int, ke: int, asg: int, recalc: bool, 
 
 
 _NAT = dict(v0=1, v1=2, v2=3, z=4, g=5, p1_1=0, p2_1=-1, p1_2=1, p2_2=0, T0=False, T1=True, T2=True)
+_Z0 = dict(zsel=0, pre_ref=False, zz=0)
 
 
 def _parts(tier, seed):
     if tier == "quick":
         # top cells requested, recursion only on the top cells, second operation off except for one sweep
         ps = product(q1=[2], t1=[1], ke=[0, 1, 2], te=[0, 1], ek=[0, 1, 3], T0=[False], T1=[False], second=[-1])
+        # a reference change before the edit and a change of the OTHER attribute-read reference after it (input must survive)
+        ps += product(q1=[2], t1=[1], ke=[2, 1], te=[1], ek=[0], T0=[False], T1=[False], T2=[False], second=[3, 4], zsel=[1, 2], pre_ref=[True], recalc=[False])
         ps += product(q1=[2], t1=[1], ke=[0, 1], te=[1], ek=[0], T0=[False], T1=[False], second=[0, 1, 2, 3], recalc=[False])
         ps += product(q1=[1], t1=[1], ke=[0, 2], te=[0], ek=[0, 2, 4], T0=[True], T2=[False], second=[-1])
-        return ps
+        return [dict(dict(zsel=0, pre_ref=False), **p) for p in ps]
     return product(q1=[1, 2], t1=[0, 1], ke=[0, 1, 2], te=[0, 1], ek=[0, 1, 2, 3, 4], second=[-1]) + \
         product(q1=[2], t1=[1], ke=[0, 1, 2], te=[0, 1], ek=[0], second=[0, 1, 2, 3])
 
 
 QUERIES = [
     Query("edit", edit,
-          pre=dag_pre(N) + ["0 <= q1 < 3", "0 <= t1 <= 1", "0 <= ke < 3", "0 <= te <= 1", "0 <= ek < 5", "-1 <= second <= 3"],
+          pre=dag_pre(N) + ["0 <= q1 < 3", "0 <= t1 <= 1", "0 <= ke < 3", "0 <= te <= 1", "0 <= ek < 5", "-1 <= second <= 4", "0 <= zsel <= 2"],
           partitions=_parts,
-          natives=[dict(_NAT, q1=2, t1=1, ke=0, te=1, ek=0, w=100, recalc=False, second=-1),
-                   dict(_NAT, q1=2, t1=1, ke=1, te=0, ek=0, w=100, recalc=True, second=2),
-                   dict(_NAT, q1=2, t1=1, ke=1, te=1, ek=1, w=0, recalc=False, second=-1),
-                   dict(_NAT, q1=2, t1=1, ke=0, te=0, ek=3, w=0, recalc=False, second=-1),
-                   dict(_NAT, q1=1, t1=1, ke=2, te=0, ek=0, w=7, recalc=True, second=0),
-                   dict(_NAT, q1=2, t1=1, ke=2, te=1, ek=4, w=7, recalc=False, second=-1)],
+          natives=[dict(_NAT, **_Z0, q1=2, t1=1, ke=0, te=1, ek=0, w=100, recalc=False, second=-1),
+                   dict(_NAT, **_Z0, q1=2, t1=1, ke=1, te=0, ek=0, w=100, recalc=True, second=2),
+                   dict(_NAT, **_Z0, q1=2, t1=1, ke=1, te=1, ek=1, w=0, recalc=False, second=-1),
+                   dict(_NAT, **_Z0, q1=2, t1=1, ke=0, te=0, ek=3, w=0, recalc=False, second=-1),
+                   dict(_NAT, **_Z0, q1=1, t1=1, ke=2, te=0, ek=0, w=7, recalc=True, second=0),
+                   dict(_NAT, **_Z0, q1=2, t1=1, ke=2, te=1, ek=4, w=7, recalc=False, second=-1),
+                   dict(_NAT, q1=2, t1=1, ke=2, te=1, ek=0, w=7, recalc=False, second=4, zsel=1, pre_ref=True, zz=9),
+                   dict(_NAT, q1=2, t1=1, ke=2, te=1, ek=0, w=7, recalc=False, second=4, zsel=2, pre_ref=True, zz=9),
+                   dict(_NAT, q1=2, t1=1, ke=1, te=1, ek=0, w=7, recalc=False, second=3, zsel=1, pre_ref=True, zz=9)],
           bounds=lambda tier: {"cells": N, "t_max": TMAX, "edits": EDITS, "assigned_value": "unbounded int", "recalc": [False, True],
                                "second_operation": ["none", "clear()", "assign elsewhere", "model ref change", "child ref change"],
                                "dag": "pointers symbolic (36 shapes); recursion switches symbolic in thorough, T2 only in quick"},
